@@ -726,3 +726,7 @@ mod tests {
         assert!(enforcer.validate_selection(&too_close_selection).is_err());
     }
 }
+
+#[cfg(kani)]
+#[path = "/verif/kani/placement_algorithms_proofs.rs"]
+mod verif_proofs;
